@@ -45,12 +45,14 @@ func FromMap[K comparable, V any](m Map[K, V], hm map[K]V) Map[K, V] {
 
 	m.ensureTree()
 	txn := m.tree.Txn()
-	for key, value := range hm {
-		txn.Insert(m.keyToBytes(key), mapKVPair[K, V]{key, value})
-	}
 	if m.singleton != nil {
+		// Insert the existing singleton first so that the values from the
+		// hash map win over it.
 		txn.Insert(m.keyToBytes(m.singleton.Key), *m.singleton)
 		m.singleton = nil
+	}
+	for key, value := range hm {
+		txn.Insert(m.keyToBytes(key), mapKVPair[K, V]{key, value})
 	}
 	m.tree = txn.Commit()
 	return m
